@@ -15,7 +15,7 @@ from vlib.exprterm import Builder, normal_form, show, NF, Poly, TermError, explo
 UNITS = ["src/occa/internal/lang/modes/oklForStatement.cpp", "src/occa/internal/lang/modes/withLauncher.cpp", "src/occa/internal/lang/modes/cuda.cpp",
          "src/occa/internal/lang/modes/opencl.cpp", "src/occa/internal/lang/modes/metal.cpp", "src/occa/internal/lang/modes/dpcpp.cpp",
          "src/occa/internal/lang/modes/hip.cpp", "src/occa/internal/lang/modes/serial.cpp", "src/occa/internal/lang/operator.cpp",
-         "src/occa/internal/lang/expr/exprNode.cpp", "src/occa/internal/lang/expr/exprOpNode.cpp"]
+         "src/occa/internal/lang/expr/exprNode.cpp", "src/occa/internal/lang/expr/exprOpNode.cpp", "src/occa/internal/lang/expr/expr.cpp"]
 OF = "occa::lang::okl::oklForStatement::"
 NS = "occa::lang::okl::"
 LAUNCHERS = ["cudaParser", "hipParser", "openclParser", "metalParser", "dpcppParser"]
@@ -43,6 +43,7 @@ def run(ctx):
     R.rule("C17-R3", "count and mapping use the same header fields", floor=5)
     R.rule("C17-R5", "closed form of the launch count and of the index mapping, per header configuration, equals the sequential loop's iteration count / k-th iterator value", floor=12)
     R.rule("C17-R6", "a negative (wrapped) launch dimension makes the launch a no-op: an empty run-time range runs the body zero times", floor=3)
+    R.rule("C17-R7", "the expression DSL the count / mapping builders are written in builds what its operators say (a + b -> `+` node, parens -> wrapInParentheses)", floor=15)
     R.rule("C17-R4", "header facts are derived from the matching operator flags (inclusive, direction, side)", floor=6)
 
     for name in ("getIterationCount", "makeDeclarationValue"):
@@ -53,6 +54,8 @@ def run(ctx):
         n = Paren(prog, f, okl_sources, rep).run()
         if n < 4:
             raise AnalysisBroken("%s: only %d operand slots analysed" % (f.q, n))
+    from vlib.exprterm import dsl_soundness
+    dsl_soundness(prog, lambda ok, fn, key, site, detail: R.ob("C17-R7", ok, fn, key, site, detail))
     # sanitiser soundness (META-3): wrapInParentheses builds a parenthesesNode for every operator node
     base = prog.fn("occa::lang::exprNode::wrapInParentheses")
     opn = prog.fn("occa::lang::exprOpNode::wrapInParentheses")
